@@ -124,3 +124,22 @@ package fsim
 //@   requires @hash u.hash != nil && !implements(u.hash, "fdo.fallibleHash")
 //@   requires @temp u.written > 0 ==> u.temp != nil
 //@   callsites finalize 1
+
+// wget, owner side (C17): the device starts fetching when "url" arrives and checks the
+// digest it holds at that moment, so the announcements ("sha-384" when there is a
+// checksum, "name") are queued before "url", which is the last message of the command
+//@ func fsim.WgetCommand.ProduceInfo
+//@   params w ctx producer
+//@   local messageBody = extract0:call:cbor.Marshal#4
+//@   local nameBody = extract0:call:cbor.Marshal#2
+//@   local urlBody = extract0:call:cbor.Marshal#3
+//@   props C17 C10(sweep)
+//@   sweep bounds,panic,make
+//@   callsites WriteChunk 4
+//@   callassert WriteChunk#1: @active arg1 == "active"
+//@   callassert WriteChunk#3: @digest arg1 == "sha-384" && len(w.Checksum) > 0 && bytes(arg2) == bytes(messageBody)
+//@   callassert WriteChunk#2: @name arg1 == "name" && bytes(arg2) == bytes(nameBody)
+//@   callassert WriteChunk#4: @urllast arg1 == "url" && bytes(arg2) == bytes(urlBody) && lastqueued(producer) == u("name")
+//@   callassert WriteChunk#2: @afterdigest imp(len(w.Checksum) > 0, lastqueued(producer) == u("sha-384")) && imp(len(w.Checksum) == 0, lastqueued(producer) == u("active"))
+//@   callassert Marshal#2: @nameval u(unwrap(arg0)) == u(w.Name)
+//@   callassert Marshal#4: @digestval bytes(unwrap(arg0)) == bytes(w.Checksum)
